@@ -4,6 +4,7 @@ C01 property theorems, class X86Mov, general-purpose forms: `mov reg, reg` for A
 (Segment / control / debug registers, the moffs forms and immediates are not in the model: `unmodelled`.)
 -/
 import AsmjitVerif.Props.C01RowsLegMem
+import AsmjitVerif.Props.C01FrontOpReg
 set_option linter.constructorNameAsVariable false
 set_option linter.unusedSimpArgs false
 set_option linter.unusedVariables false
@@ -210,5 +211,452 @@ theorem dispatch_lea (c : Model.X86.Ctx) (row : Row) (k : RegKind) (i : Nat) (m 
     (hk : k = .gpw ∨ k = .gpd ∨ k = .gpq) :
     dispatch c row 0#32 (.reg (rtypeOf k) i) (.mem m) .none .none = emitX86M c (addPrefixBySize row.mainOp (kindSize k)) 0#32 (r32 i) m 0 0 := by
   rcases hk with h | h | h <;> subst h <;> simp [dispatch, henc, sig3, Op.kind, Op.id, Op.rmSize, rtypeOf, kindSize]
+
+/-! ### class X86Mov: `mov r16|r32|r64, imm` (B8+r iw|id|iq; a 64-bit register takes this form when the value is not a sign-extended imm32) -/
+
+def movRiOpc (e : Entry) : BitVec 32 := addPrefixBySize 0xB8#32 (kindSize (e.kinds.getD 0 .none))
+
+def entryOkMovRi (e : Entry) : Bool :=
+  let r := e.rule
+  let op := movRiOpc e
+  let pp := ((op >>> 21) &&& 3#32).toNat
+  match e.rule.ops, e.kinds with
+  | [f0, f3], [k0] =>
+    let s := kindSize k0
+    e.enc == 0x2c && ((s == 2 || s == 4 || s == 8) && (r.modes &&& 2 != 0 && (r.space == 0 && (r.pp &&& 8 == 0 && (((r.pp &&& 1 != 0 || r.osz == 16) == (pp == 1)) &&
+    (((r.pp &&& 2 != 0) == (pp == 2)) && (((r.pp &&& 4 != 0) == (pp == 3)) && (r.ri && (!r.a67 && (r.modKind == 0 && (r.immBytes == s && (r.relBytes == 0 &&
+    (!r.moff && (op &&& 0xF7801C07#32 == 0#32 && (r.opcode == (op &&& 0xFF#32).toNat && (r.map == ((op >>> 8) &&& 3#32).toNat &&
+    ((wWant r == 2 || wWant r == ((op >>> 27) &&& 1#32).toNat) &&
+    (((op >>> 8) &&& 3#32 != 0#32 || [0#32, 1#32, 2#32, 3#32, 4#32, 5#32, 6#32, 7#32].all (fun r7 =>
+        !isLegacyPrefix ((op + r7).truncate 8) false && ((op + r7).truncate 8 : BitVec 8) >>> 4 != 4#8)) &&
+    (plainKind k0 && (f0.role == .opc && (noFix f0 && (formOpMatches r.oszEff f0 (.reg k0 0) &&
+    (f3.role == .imm && (!r.immRev && (immBitsOf f3 == 8 * s && !immSignCase r f3)))))))))))))))))))))))))
+  | _, _ => false
+
+theorem movri_entries_ok : lmovriChunks.all (fun c => c.all entryOkMovRi) = true := by decide +kernel
+
+/-- **front_cls_correct, class X86Mov, `mov reg, imm`** (B8+r with a 16 / 32 / 64-bit immediate): ALL registers 0..15, EVERY immediate value -/
+theorem front_cls_correct_mov_ri (e : Entry) (ch : List Entry) (hch : ch ∈ lmovriChunks) (he : e ∈ ch)
+    (ctx : Spec.X86.Ctx) (r : BitVec 32) (v : BitVec 64) (hm64 : ctx.mode64 = true) (hr : r < 16#32)
+    (himm : ∀ f3, e.rule.ops[1]? = some f3 → formOpMatches e.rule.oszEff f3 (.imm v) = true) :
+    ∃ bytes k0, e.kinds = [k0] ∧ emitX86OpReg (movRiOpc e) 0#32 r v (kindSize k0) = .ok bytes ∧
+      formOk ctx e.rule [.reg k0 r.toNat, .imm v] {} bytes = true := by
+  have hok := mem_chunks_ok movri_entries_ok e ch hch he
+  unfold entryOkMovRi at hok
+  dsimp only at hok
+  split at hok
+  · rename_i f0 f3 k0 hops hkinds
+    have m3 : formOpMatches e.rule.oszEff f3 (.imm v) = true := himm f3 (by rw [hops]; rfl)
+    simp only [Bool.and_eq_true, Bool.or_eq_true, beq_iff_eq, bne_iff_ne, ne_eq, Bool.not_eq_true', decide_eq_true_eq] at hok
+    obtain ⟨-, hs3, hmodes, hs, hpp8, h66, hF3, hF2, hri, ha67, hmk, hib, hrel, hmoff, hmask, hop, hmap, hw, hsafe, pk, r0, n0, m0, r3, hrev, hnb, hsc⟩ := hok
+    have hs' : kindSize k0 = 2 ∨ kindSize k0 = 4 ∨ kindSize k0 = 8 := by omega
+    have hal : alignOps e.rule.oszEff e.rule.ops [.reg k0 r.toNat, .imm v] = some [(f0, some (.reg k0 r.toNat)), (f3, some (.imm v))] := by
+      rw [hops]
+      exact alignOps2 _ _ _ _ _ (by rw [formOpMatches_reg_nofix _ _ _ _ n0]; exact m0) m3
+    have hn : immBytesOf (immBitsOf f3) = kindSize k0 := by
+      rw [hnb]; rcases hs' with h | h | h <;> rw [h] <;> decide
+    have hn4 : immBitsOf f3 ≠ 4 := by rw [hnb]; rcases hs' with h | h | h <;> rw [h] <;> decide
+    obtain ⟨bytes, hb, hf⟩ := opRegImm_formOk ctx e.rule (movRiOpc e) r k0 f0 f3 v v (kindSize k0) hm64 (by simpa using hmodes) hmask hr hs hpp8
+      (by simpa using h66) (by simpa using hF3) (by simpa using hF2) hri ha67 hmk hib hrel hmoff hop hmap hw
+      (by
+        intro h0 r7 hr7
+        rcases hsafe with h | h
+        · exact absurd h0 h
+        · have := all8 _ h r7 hr7
+          simp only [Bool.and_eq_true, Bool.not_eq_true', bne_iff_ne, ne_eq] at this
+          exact this)
+      (plainKind_spec _ pk) r0 (by
+        intro p hp
+        refine immConds_ok ctx e.rule p f3 v r3 hn4 hrev ?_
+        rw [hn, hp, take_emitImmediate]
+        have hsc' : (immSignOf f3 == 1 && e.rule.oszEff != 0 && decide (8 * kindSize k0 < e.rule.oszEff)) = immSignCase e.rule f3 := by
+          simp [immSignCase, hn]
+        rw [hsc', hsc]
+        simp [emitImmediate_leBytes]) hal
+    exact ⟨bytes, k0, hkinds, hb, hf⟩
+  · simp at hok
+
+/-- the class switch (no encoding options): B8+r for 16 / 32-bit registers always, for a 64-bit register when the value is not representable
+as a sign-extended imm32 (otherwise the class prefers `REX.W C7 /0 id`) -/
+theorem dispatch_mov_ri (c : Model.X86.Ctx) (row : Row) (k : RegKind) (i : Nat) (v : BitVec 64) (henc : row.encoding = 0x2c)
+    (hk : k = .gpw ∨ k = .gpd ∨ k = .gpq) (hfit : k = .gpq → isInt32of64 v = false) :
+    dispatch c row 0#32 (.reg (rtypeOf k) i) (.imm v) .none .none =
+      emitX86OpReg (addPrefixBySize 0xB8#32 (kindSize k)) 0#32 (r32 i) v (kindSize k) := by
+  rcases hk with h | h | h <;> subst h <;>
+    simp [dispatch, henc, sig3, Op.kind, Op.id, Op.rmSize, Op.isGp, Op.immVal, rtypeOf, kindSize, oLongForm, hfit]
+
+/-! ### class X86Mov: `mov r64, imm32` sign-extended (REX.W C7 /0 id) - the form the class prefers when the value is representable -/
+
+def entryOkMovRmi (e : Entry) : Bool :=
+  match e.rule.ops, e.kinds with
+  | [f0, f3], [k0] =>
+    e.enc == 0x2c && (k0 == .gpq && (plainKind k0 && (f0.role == .rm && (f3.role == .imm && (noFix f0 && (formOpMatches e.rule.oszEff f0 (.reg k0 0) &&
+    (!e.rule.immRev && (immBitsOf f3 == 32 && (immSignCase e.rule f3 && (e.rule.oszEff == 64 &&
+    (legRuleDOk e.rule 4 (((kW ||| 0xC7#32) >>> 21) &&& 3#32).toNat 0 && legAgreeOk e.rule (kW ||| 0xC7#32))))))))))))
+  | _, _ => false
+
+theorem movrmi_entries_ok : lmovrmiChunks.all (fun c => c.all entryOkMovRmi) = true := by decide +kernel
+
+theorem front_cls_correct_mov_r64_imm32 (e : Entry) (ch : List Entry) (hch : ch ∈ lmovrmiChunks) (he : e ∈ ch)
+    (ctx : Spec.X86.Ctx) (r0 : BitVec 32) (v : BitVec 64) (hm64 : ctx.mode64 = true) (h0 : r0 < 16#32)
+    (himm : ∀ f3, e.rule.ops[1]? = some f3 → formOpMatches e.rule.oszEff f3 (.imm v) = true)
+    (hfit : isInt32of64 v = true) :
+    ∃ bytes, e.kinds = [.gpq] ∧ emitX86R (kW ||| 0xC7#32) 0#32 0#32 r0 v 4 = .ok bytes ∧
+      formOk ctx e.rule [.reg .gpq r0.toNat, .imm v] {} bytes = true := by
+  have hok := mem_chunks_ok movrmi_entries_ok e ch hch he
+  unfold entryOkMovRmi at hok
+  split at hok
+  · rename_i f0 f3 k0 hops hkinds
+    have m3 : formOpMatches e.rule.oszEff f3 (.imm v) = true := himm f3 (by rw [hops]; rfl)
+    simp only [Bool.and_eq_true, Bool.or_eq_true, beq_iff_eq, bne_iff_ne, ne_eq, Bool.not_eq_true', decide_eq_true_eq] at hok
+    obtain ⟨-, hq, pk, ra, r3, n0, m0, hrev, hnb, hsc, hosz, hR, hA⟩ := hok
+    subst hq
+    obtain ⟨A, hmask⟩ := legAgreeOk_spec _ _ hA
+    have R := legRuleDOk_spec _ _ _ _ hR
+    have hal : alignOps e.rule.oszEff e.rule.ops [.reg .gpq r0.toNat, .imm v] = some [(f0, some (.reg .gpq r0.toNat)), (f3, some (.imm v))] := by
+      rw [hops]
+      exact alignOps2 _ _ _ _ _ (by rw [formOpMatches_reg_nofix _ _ _ _ n0]; exact m0) m3
+    have hn : immBytesOf (immBitsOf f3) = 4 := by rw [hnb]; decide
+    have hn4 : immBitsOf f3 ≠ 4 := by rw [hnb]; decide
+    obtain ⟨bytes, hb, hf⟩ := rmImm_formOk ctx e.rule (kW ||| 0xC7#32) 0#32 r0 .gpq f0 f3 v v 4 hm64
+      (by simpa using R.hmodes) hmask (plainKind_spec _ pk) (by decide) h0 R A ra (by
+        intro p hp
+        refine immConds_ok ctx e.rule p f3 v r3 hn4 hrev ?_
+        rw [hn, hp, take_emitImmediate]
+        have hsc' : (immSignOf f3 == 1 && e.rule.oszEff != 0 && decide (8 * 4 < e.rule.oszEff)) = immSignCase e.rule f3 := by
+          simp [immSignCase, hn]
+        rw [hsc', hsc]
+        simp only [↓reduceIte, decide_eq_true_eq, hosz]
+        rw [emitImmediate_leBytes, leNat_leBytes4]
+        have := sext32_mod v hfit
+        simpa using this) hal
+    exact ⟨bytes, hkinds, hb, hf⟩
+  · simp at hok
+
+theorem dispatch_mov_r64_imm32 (c : Model.X86.Ctx) (row : Row) (i : Nat) (v : BitVec 64) (henc : row.encoding = 0x2c) (hfit : isInt32of64 v = true) :
+    dispatch c row 0#32 (.reg (rtypeOf .gpq) i) (.imm v) .none .none = emitX86R (kW ||| 0xC7#32) 0#32 0#32 (r32 i) v 4 := by
+  simp [dispatch, henc, sig3, Op.kind, Op.id, Op.rmSize, Op.isGp, Op.immVal, rtypeOf, oLongForm, hfit]
+
+/-! ### class X86Mov: `mov MEM, imm` (C6 /0 ib, C7 /0 iw|id, REX.W C7 /0 id sign-extended) -/
+
+def movMiOpc (e : Entry) : BitVec 32 :=
+  let s := kindSize (e.kinds.getD 0 .none)
+  addPrefixBySize (if s != 1 then 0xC7#32 else 0xC6#32) s
+
+def entryOkMovMi (e : Entry) : Bool :=
+  match e.rule.ops, e.kinds with
+  | [f0, f3], [k0] =>
+    let s := kindSize k0
+    !anyMemAlt f0 ||
+    (e.enc == 0x2c && ((s == 1 || s == 2 || s == 4 || s == 8) && (legRuleMDOk e.rule (min s 4) ((movMiOpc e >>> 21) &&& 3#32).toNat 0 &&
+    (legAgreeOk e.rule (movMiOpc e) && (movMiOpc e &&& 0xF780FC00#32 == 0#32 && (f0.role == .rm && (f3.role == .imm && (hasMemAlt f0 s &&
+    (immBitsOf f3 == 8 * min s 4 && (!immSignCase e.rule f3 || (s == 8 && e.rule.oszEff == 64)))))))))))
+  | _, _ => false
+
+theorem movmi_entries_ok : lmovmiChunks.all (fun c => c.all entryOkMovMi) = true := by decide +kernel
+theorem movmi_all_mem : lmovmiChunks.all (fun c => c.all (fun e => match e.rule.ops with | [f0, _] => anyMemAlt f0 | _ => true)) = true := by decide +kernel
+
+/-- **front_cls_correct, class X86Mov, `mov MEM, imm`**: memory operands of 1 / 2 / 4 / 8 bytes, every address form with an `AddrFormL`
+instance, every immediate (for a 64-bit destination: representable as a sign-extended imm32). -/
+theorem front_cls_correct_mov_mi_mem (e : Entry) (ch : List Entry) (hch : ch ∈ lmovmiChunks) (he : e ∈ ch)
+    (c : Model.X86.Ctx) (ctx : Spec.X86.Ctx) (xb : BitVec 32) (m : Mem) (mo : MemOp) (pfx : List (BitVec 8))
+    (mb : BitVec 32 → BitVec 8) (sib : Option (BitVec 8)) (ds : List (BitVec 8))
+    (AF : AddrFormL c ctx m mo pfx xb mb sib ds) (v : BitVec 64) (hm64 : ctx.mode64 = true)
+    (hsize : mo.size = kindSize (e.kinds.getD 0 .none))
+    (himm : ∀ f3, e.rule.ops[1]? = some f3 → formOpMatches e.rule.oszEff f3 (.imm v) = true)
+    (hfit : kindSize (e.kinds.getD 0 .none) = 8 → isInt32of64 v = true) :
+    ∃ bytes k0, e.kinds = [k0] ∧ emitX86M c (movMiOpc e) 0#32 0#32 m v (min (kindSize k0) 4) = .ok bytes ∧
+      formOk ctx e.rule [.mem mo, .imm v] {} bytes = true := by
+  have hok := mem_chunks_ok movmi_entries_ok e ch hch he
+  unfold entryOkMovMi at hok
+  split at hok
+  · rename_i f0 f3 k0 hops hkinds
+    have m3 : formOpMatches e.rule.oszEff f3 (.imm v) = true := himm f3 (by rw [hops]; rfl)
+    simp only [hkinds, List.getD_cons_zero] at hsize hfit
+    have hcases : anyMemAlt f0 = false ∨ anyMemAlt f0 = true := by cases anyMemAlt f0 <;> simp
+    simp only [Bool.and_eq_true, Bool.or_eq_true, beq_iff_eq, bne_iff_ne, ne_eq, Bool.not_eq_true', decide_eq_true_eq] at hok
+    rcases hok with hno | ⟨-, hs', hR, hA, hmask, ra, r3, hma, hnb, hscase⟩
+    · -- the generated chunk has a memory alternative in every entry (decided below)
+      exfalso
+      have hall := mem_chunks_ok movmi_all_mem e ch hch he
+      simp only [hops] at hall
+      rw [hno] at hall
+      exact absurd hall (by decide)
+    · obtain ⟨R, hmode⟩ := legRuleMDOk_spec _ _ _ _ hR
+      have A := (legAgreeOk_spec _ _ hA).1
+      have hs : kindSize k0 = 1 ∨ kindSize k0 = 2 ∨ kindSize k0 = 4 ∨ kindSize k0 = 8 := by omega
+      have hal : alignOps e.rule.oszEff e.rule.ops [.mem mo, .imm v] = some [(f0, some (.mem mo)), (f3, some (.imm v))] := by
+        rw [hops]
+        exact alignOps2 _ _ _ _ _ (hasMemAlt_matches _ _ _ _ hma hsize AF.hvsib) m3
+      have hn : immBytesOf (immBitsOf f3) = min (kindSize k0) 4 := by
+        rw [hnb]; rcases hs with h | h | h | h <;> rw [h] <;> decide
+      have hn4 : immBitsOf f3 ≠ 4 := by rw [hnb]; rcases hs with h | h | h | h <;> rw [h] <;> decide
+      obtain ⟨bytes, hb, hf⟩ := legM_mi_formOk c ctx e.rule (movMiOpc e) 0#32 xb m mo pfx mb sib ds AF f0 f3 0 v v (min (kindSize k0) 4) hm64 hmode hmask
+        (by decide) R (by intro _; rfl) A ra (by
+          intro p hp
+          refine immConds_ok ctx e.rule p f3 v r3 hn4 R.hrev ?_
+          rw [hn, hp, take_emitImmediate]
+          have hsc : (immSignOf f3 == 1 && e.rule.oszEff != 0 && decide (8 * min (kindSize k0) 4 < e.rule.oszEff)) = immSignCase e.rule f3 := by
+            simp [immSignCase, hn]
+          rw [hsc]
+          rcases hscase with hsf | ⟨hs8, hosz⟩
+          · rw [hsf]; simp [emitImmediate_leBytes]
+          · cases hsc2 : immSignCase e.rule f3
+            · simp [emitImmediate_leBytes]
+            · simp only [↓reduceIte, decide_eq_true_eq]
+              simp only [hs8, hosz, show min 8 4 = 4 from rfl]
+              rw [emitImmediate_leBytes, leNat_leBytes4]
+              have := sext32_mod v (hfit hs8)
+              simpa using this) hal
+      exact ⟨bytes, k0, hkinds, hb, hf⟩
+  · simp at hok
+
+theorem dispatch_mov_mi (c : Model.X86.Ctx) (row : Row) (m : Mem) (v : BitVec 64) (henc : row.encoding = 0x2c) (hsz : m.size ≠ 0) :
+    dispatch c row 0#32 (.mem m) (.imm v) .none .none =
+      emitX86M c (addPrefixBySize (if m.size != 1 then 0xC7#32 else 0xC6#32) m.size) 0#32 0#32 m v (min m.size 4) := by
+  have h : (m.size == 0) = false := by simpa using hsz
+  simp [dispatch, henc, sig3, Op.kind, Op.rmSize, Op.immVal, h]
+
+/-! ### class X86Arith: `op MEM, imm` (80 /d ib; 83 /d ib sign-extended; 81 /d iw|id, sign-extended imm32 for a 64-bit destination) -/
+
+def arithMiOp83 (e : Entry) : BitVec 32 := addPrefixBySize 0x83#32 (kindSize (e.kinds.getD 0 .none))
+def arithMiOpL (e : Entry) : BitVec 32 :=
+  let s := kindSize (e.kinds.getD 0 .none)
+  addPrefixBySize (if s != 1 then 0x81#32 else 0x80#32) s
+
+def entryOkArithMi (e : Entry) : Bool :=
+  match e.rule.ops, e.kinds with
+  | [f0, f3], [k0] =>
+    let s := kindSize k0
+    let r := e.rule
+    (k0 == .gpq && immSignOf f3 == 2) || !anyMemAlt f0 ||
+    (e.enc == 0x19 && ((s == 1 || s == 2 || s == 4 || s == 8) && (f0.role == .rm && (f3.role == .imm && (hasMemAlt f0 s &&
+    ((s != 1 && (immBitsOf f3 == 8 && (immSignCase r f3 && (r.oszEff == 8 * s && (legRuleMDOk r 1 ((arithMiOp83 e >>> 21) &&& 3#32).toNat (digitOf e).toNat &&
+        (legAgreeOk r (arithMiOp83 e) && arithMiOp83 e &&& 0xF780FC00#32 == 0#32)))))) ||
+     (immBitsOf f3 == 8 * min s 4 && ((s == 1 || immBitsOf f3 != 8) && ((!immSignCase r f3 || (s == 8 && r.oszEff == 64)) &&
+        (legRuleMDOk r (min s 4) ((arithMiOpL e >>> 21) &&& 3#32).toNat (digitOf e).toNat && (legAgreeOk r (arithMiOpL e) &&
+         arithMiOpL e &&& 0xF780FC00#32 == 0#32)))))))))))
+  | _, _ => false
+
+theorem arithmi_entries_ok : larithmiChunks.all (fun c => c.all entryOkArithMi) = true := by decide +kernel
+theorem arithmi_all_mem : larithmiChunks.all (fun c => c.all (fun e => match e.rule.ops with | [f0, _] => anyMemAlt f0 | _ => true)) = true := by decide +kernel
+theorem arithmi8_sign_ok : larithmiChunks.all (fun c => c.all (fun e => match e.rule.ops, e.kinds with
+  | [_, f3], [k0] => kindSize k0 == 1 || immBitsOf f3 != 8 || immSignOf f3 == 1 | _, _ => true)) = true := by decide +kernel
+
+/-- **front_cls_correct, class X86Arith, `op MEM16|32|64, imm8`** (83 /d ib, sign-extended): every address form with an `AddrFormL` instance,
+every immediate the class encodes in this form (`isInt8` of the value, after sign-extension from 32 bits for a 32-bit destination). -/
+theorem front_cls_correct_arith_mi8s (e : Entry) (ch : List Entry) (hch : ch ∈ larithmiChunks) (he : e ∈ ch)
+    (c : Model.X86.Ctx) (ctx : Spec.X86.Ctx) (xb : BitVec 32) (m : Mem) (mo : MemOp) (pfx : List (BitVec 8))
+    (mb : BitVec 32 → BitVec 8) (sib : Option (BitVec 8)) (ds : List (BitVec 8))
+    (AF : AddrFormL c ctx m mo pfx xb mb sib ds) (v : BitVec 64) (hm64 : ctx.mode64 = true)
+    (hsize : mo.size = kindSize (e.kinds.getD 0 .none)) (hs1 : kindSize (e.kinds.getD 0 .none) ≠ 1)
+    (h8 : ∀ f3, e.rule.ops[1]? = some f3 → immBitsOf f3 = 8)
+    (himm : ∀ f3, e.rule.ops[1]? = some f3 → formOpMatches e.rule.oszEff f3 (.imm v) = true)
+    (hfit : isInt8of64 (arithImm1 e v) = true) :
+    ∃ bytes, emitX86M c (arithMiOp83 e) 0#32 (digitOf e) m (arithImm1 e v) 1 = .ok bytes ∧ formOk ctx e.rule [.mem mo, .imm v] {} bytes = true := by
+  have hok := mem_chunks_ok arithmi_entries_ok e ch hch he
+  unfold entryOkArithMi at hok
+  split at hok
+  · rename_i f0 f3 k0 hops hkinds
+    have hb8 : immBitsOf f3 = 8 := h8 f3 (by rw [hops]; rfl)
+    have m3 : formOpMatches e.rule.oszEff f3 (.imm v) = true := himm f3 (by rw [hops]; rfl)
+    simp only [hkinds, List.getD_cons_zero] at hsize hs1
+    simp only [hb8, Bool.and_eq_true, Bool.or_eq_true, beq_iff_eq, bne_iff_ne, ne_eq, Bool.not_eq_true', decide_eq_true_eq] at hok
+    rcases hok with (⟨hq, h32⟩ | hno) | ⟨-, hs', ra, r3, hma, hcase⟩
+    · exfalso
+      have hall := mem_chunks_ok arithmi8_sign_ok e ch hch he
+      simp only [hops, hkinds, hb8] at hall
+      have hs1' : (kindSize k0 == 1) = false := by simpa using hs1
+      simp [hs1'] at hall
+      omega
+    · exfalso
+      have hall := mem_chunks_ok arithmi_all_mem e ch hch he
+      simp only [hops] at hall
+      rw [hno] at hall
+      exact absurd hall (by decide)
+    · rcases hcase with ⟨-, -, hsc, hosz, hR, hA, hmask⟩ | ⟨hnb, h1, -⟩
+      · obtain ⟨R, hmode⟩ := legRuleMDOk_spec _ _ _ _ hR
+        have A := (legAgreeOk_spec _ _ hA).1
+        have hs : (kindSize k0 = 2 ∨ kindSize k0 = 4) ∨ kindSize k0 = 8 := by omega
+        have hal : alignOps e.rule.oszEff e.rule.ops [.mem mo, .imm v] = some [(f0, some (.mem mo)), (f3, some (.imm v))] := by
+          rw [hops]
+          exact alignOps2 _ _ _ _ _ (hasMemAlt_matches _ _ _ _ hma hsize AF.hvsib) m3
+        have hd : digitOf e < 8#32 := by simp only [digitOf]; bv_decide
+        exact legM_mi_formOk c ctx e.rule (arithMiOp83 e) (digitOf e) xb m mo pfx mb sib ds AF f0 f3 (digitOf e).toNat v (arithImm1 e v) 1 hm64 hmode hmask
+          hd R (by intro _; rfl) A ra (by
+            intro p hp
+            refine immConds_ok ctx e.rule p f3 v r3 (by rw [hb8]; decide) R.hrev ?_
+            have hsc' : (immSignOf f3 == 1 && e.rule.oszEff != 0 && decide (8 * immBytesOf (immBitsOf f3) < e.rule.oszEff)) = true := by
+              simpa [immSignCase] using hsc
+            rw [hsc', hb8]
+            simp only [↓reduceIte, decide_eq_true_eq, immBytesOf, show (8:Nat) ≤ 8 from Nat.le_refl 8, hp, emitImmediate, List.take, leNat, Nat.mul_zero, Nat.add_zero, Nat.mul_one]
+            obtain ⟨a64, a32, a16⟩ := sext8_mod (arithImm1 e v) hfit
+            simp only [arithImm1, hkinds, List.getD_cons_zero] at a64 a32 a16 hfit ⊢
+            rw [hosz]
+            rcases hs with (hs | hs) | hs <;> rw [hs] at a64 a32 a16 ⊢
+            · simpa using a16
+            · simp only [beq_self_eq_true, ↓reduceIte] at a32 ⊢
+              rw [sext32_low] at a32
+              simpa using a32
+            · simpa using a64) hal
+      · rcases h1 with h1 | h1
+        · exact absurd h1 hs1
+        · first | exact absurd hb8 h1 | exact absurd trivial h1
+  · simp at hok
+
+/-- **front_cls_correct, class X86Arith, `op MEM8, imm8` (80 /d ib) and `op MEM16|32|64, imm16|imm32` (81 /d iw|id; sign-extended imm32 with
+REX.W)**: every address form with an `AddrFormL` instance; the long form is the one the class uses when the value does not fit imm8. -/
+theorem front_cls_correct_arith_mi (e : Entry) (ch : List Entry) (hch : ch ∈ larithmiChunks) (he : e ∈ ch)
+    (c : Model.X86.Ctx) (ctx : Spec.X86.Ctx) (xb : BitVec 32) (m : Mem) (mo : MemOp) (pfx : List (BitVec 8))
+    (mb : BitVec 32 → BitVec 8) (sib : Option (BitVec 8)) (ds : List (BitVec 8))
+    (AF : AddrFormL c ctx m mo pfx xb mb sib ds) (v : BitVec 64) (hm64 : ctx.mode64 = true)
+    (hsize : mo.size = kindSize (e.kinds.getD 0 .none))
+    (hn8 : ∀ f3, e.rule.ops[1]? = some f3 → kindSize (e.kinds.getD 0 .none) ≠ 1 → immBitsOf f3 ≠ 8)
+    (hnz : ∀ f3, e.rule.ops[1]? = some f3 → ¬ (e.kinds = [.gpq] ∧ immSignOf f3 = 2))
+    (himm : ∀ f3, e.rule.ops[1]? = some f3 → formOpMatches e.rule.oszEff f3 (.imm v) = true)
+    (hfit : kindSize (e.kinds.getD 0 .none) = 8 → isInt32of64 v = true) :
+    ∃ bytes k0, e.kinds = [k0] ∧ emitX86M c (arithMiOpL e) 0#32 (digitOf e) m (arithImm1 e v) (min (kindSize k0) 4) = .ok bytes ∧
+      formOk ctx e.rule [.mem mo, .imm v] {} bytes = true := by
+  have hok := mem_chunks_ok arithmi_entries_ok e ch hch he
+  unfold entryOkArithMi at hok
+  split at hok
+  · rename_i f0 f3 k0 hops hkinds
+    have hz := hnz f3 (by rw [hops]; rfl)
+    have hb8 := hn8 f3 (by rw [hops]; rfl)
+    have m3 : formOpMatches e.rule.oszEff f3 (.imm v) = true := himm f3 (by rw [hops]; rfl)
+    simp only [hkinds, List.getD_cons_zero] at hsize hfit hb8
+    simp only [Bool.and_eq_true, Bool.or_eq_true, beq_iff_eq, bne_iff_ne, ne_eq, Bool.not_eq_true', decide_eq_true_eq] at hok
+    rcases hok with (⟨hq, h32⟩ | hno) | ⟨-, hs, ra, r3, hma, hcase⟩
+    · exact absurd ⟨by rw [hkinds, hq], h32⟩ hz
+    · exfalso
+      have hall := mem_chunks_ok arithmi_all_mem e ch hch he
+      simp only [hops] at hall
+      rw [hno] at hall
+      exact absurd hall (by decide)
+    · rcases hcase with ⟨hs1, h8', -⟩ | ⟨hnb, -, hscase, hR, hA, hmask⟩
+      · exact absurd h8' (hb8 hs1)
+      · obtain ⟨R, hmode⟩ := legRuleMDOk_spec _ _ _ _ hR
+        have A := (legAgreeOk_spec _ _ hA).1
+        have hs' : kindSize k0 = 1 ∨ kindSize k0 = 2 ∨ kindSize k0 = 4 ∨ kindSize k0 = 8 := by omega
+        have hal : alignOps e.rule.oszEff e.rule.ops [.mem mo, .imm v] = some [(f0, some (.mem mo)), (f3, some (.imm v))] := by
+          rw [hops]
+          exact alignOps2 _ _ _ _ _ (hasMemAlt_matches _ _ _ _ hma hsize AF.hvsib) m3
+        have hd : digitOf e < 8#32 := by simp only [digitOf]; bv_decide
+        have hn : immBytesOf (immBitsOf f3) = min (kindSize k0) 4 := by
+          rw [hnb]; rcases hs' with h | h | h | h <;> rw [h] <;> decide
+        have hn4 : immBitsOf f3 ≠ 4 := by rw [hnb]; rcases hs' with h | h | h | h <;> rw [h] <;> decide
+        have hbytes : emitImmediate (arithImm1 e v) (min (kindSize k0) 4) = leBytes v.toNat (min (kindSize k0) 4) := by
+          simp only [arithImm1, hkinds, List.getD_cons_zero]
+          rcases hs' with h | h | h | h <;> rw [h]
+          · simp [emitImmediate_leBytes]
+          · simp [emitImmediate_leBytes]
+          · simp only [beq_self_eq_true, ↓reduceIte, show min 4 4 = 4 from rfl]
+            rw [emitImmediate_sext32, emitImmediate_leBytes]
+          · simp [emitImmediate_leBytes]
+        obtain ⟨bytes, hb, hf⟩ := legM_mi_formOk c ctx e.rule (arithMiOpL e) (digitOf e) xb m mo pfx mb sib ds AF f0 f3 (digitOf e).toNat v (arithImm1 e v)
+          (min (kindSize k0) 4) hm64 hmode hmask hd R (by intro _; rfl) A ra (by
+            intro p hp
+            refine immConds_ok ctx e.rule p f3 v r3 hn4 R.hrev ?_
+            rw [hn, hp, take_emitImmediate, hbytes]
+            have hsc : (immSignOf f3 == 1 && e.rule.oszEff != 0 && decide (8 * min (kindSize k0) 4 < e.rule.oszEff)) = immSignCase e.rule f3 := by
+              simp [immSignCase, hn]
+            rw [hsc]
+            rcases hscase with hsf | ⟨hs8, hosz⟩
+            · rw [hsf]; simp
+            · cases hsc2 : immSignCase e.rule f3
+              · simp
+              · simp only [↓reduceIte, decide_eq_true_eq]
+                simp only [hs8, hosz, show min 8 4 = 4 from rfl]
+                rw [leNat_leBytes4]
+                have := sext32_mod v (hfit hs8)
+                simpa using this) hal
+        exact ⟨bytes, k0, hkinds, hb, hf⟩
+  · simp at hok
+
+/-- the class switch for `op MEM, imm` (no encoding options) -/
+theorem dispatch_arith_mi (c : Model.X86.Ctx) (row : Row) (m : Mem) (v : BitVec 64) (henc : row.encoding = 0x19)
+    (hsz : m.size = 1 ∨ m.size = 2 ∨ m.size = 4 ∨ m.size = 8) :
+    let imm1 := if m.size == 4 then signExtendInt32 v else v
+    (m.size ≠ 1 → isInt8of64 imm1 = true → dispatch c row 0#32 (.mem m) (.imm v) .none .none =
+        emitX86M c (addPrefixBySize 0x83#32 m.size) 0#32 ((row.mainOp >>> 18) &&& 7#32) m imm1 1) ∧
+    ((m.size = 1 ∨ isInt8of64 imm1 = false) → dispatch c row 0#32 (.mem m) (.imm v) .none .none =
+        emitX86M c (addPrefixBySize (if m.size != 1 then 0x81#32 else 0x80#32) m.size) 0#32 ((row.mainOp >>> 18) &&& 7#32) m imm1 (min m.size 4)) := by
+  intro imm1
+  refine ⟨fun h1 h8 => ?_, fun h => ?_⟩
+  · rcases hsz with hs | hs | hs | hs
+    · exact absurd hs h1
+    all_goals
+      simp only [imm1, hs] at h8 ⊢
+      simp at h8
+      simp [dispatch, henc, sig3, Op.kind, Op.rmSize, Op.immVal, hs, h8, oLongForm]
+  · rcases hsz with hs | hs | hs | hs
+    · by_cases h8 : isInt8of64 v = true
+      · simp [dispatch, henc, sig3, Op.kind, Op.rmSize, Op.immVal, hs, h8, oLongForm, imm1]
+      · have h8' : isInt8of64 v = false := by simpa using h8
+        simp [dispatch, henc, sig3, Op.kind, Op.rmSize, Op.immVal, hs, h8', oLongForm, imm1]
+    all_goals
+      rcases h with h | h
+      · omega
+      · simp only [imm1, hs] at h ⊢
+        simp at h
+        simp [dispatch, henc, sig3, Op.kind, Op.rmSize, Op.immVal, hs, h, oLongForm]
+
+/-! ### class X86Rot: `op MEM, imm8` (C0|C1 /d ib; imm8 ≠ 1) -/
+
+def entryOkRotMi (e : Entry) : Bool :=
+  match e.rule.ops, e.kinds with
+  | [f0, f3], [k0] =>
+    let s := kindSize k0
+    !anyMemAlt f0 ||
+    (e.enc == 0x37 && (legRuleMDOk e.rule 1 ((finalOpRot e >>> 21) &&& 3#32).toNat (digitOf e).toNat && (legAgreeOk e.rule (finalOpRot e) &&
+    (finalOpRot e &&& 0xF780FC00#32 == 0#32 && (f0.role == .rm && (f3.role == .imm && (hasMemAlt f0 s && (immBitsOf f3 == 8 && !immSignCase e.rule f3))))))))
+  | _, _ => false
+
+theorem rotmi_entries_ok : lrotChunks.all (fun c => c.all entryOkRotMi) = true := by decide +kernel
+
+/-- **front_cls_correct, class X86Rot, `op MEM, imm8`**: memory operands of 1 / 2 / 4 / 8 bytes, every address form with an `AddrFormL`
+instance, every imm8 the form admits (the class masks the value to 8 bits; value 1 selects the shift-by-1 opcode instead). -/
+theorem front_cls_correct_rot_mi (e : Entry) (ch : List Entry) (hch : ch ∈ lrotChunks) (he : e ∈ ch)
+    (c : Model.X86.Ctx) (ctx : Spec.X86.Ctx) (xb : BitVec 32) (m : Mem) (mo : MemOp) (pfx : List (BitVec 8))
+    (mb : BitVec 32 → BitVec 8) (sib : Option (BitVec 8)) (ds : List (BitVec 8))
+    (AF : AddrFormL c ctx m mo pfx xb mb sib ds) (v : BitVec 64) (hm64 : ctx.mode64 = true)
+    (hsize : mo.size = kindSize (e.kinds.getD 0 .none))
+    (hmem : ∀ f0, e.rule.ops[0]? = some f0 → anyMemAlt f0 = true)
+    (himm : ∀ f3, e.rule.ops[1]? = some f3 → formOpMatches e.rule.oszEff f3 (.imm v) = true) :
+    ∃ bytes, emitX86M c (finalOpRot e) 0#32 (digitOf e) m (v &&& 0xFF#64) 1 = .ok bytes ∧ formOk ctx e.rule [.mem mo, .imm v] {} bytes = true := by
+  have hok := mem_chunks_ok rotmi_entries_ok e ch hch he
+  unfold entryOkRotMi at hok
+  split at hok
+  · rename_i f0 f3 k0 hops hkinds
+    have m3 : formOpMatches e.rule.oszEff f3 (.imm v) = true := himm f3 (by rw [hops]; rfl)
+    have hma0 := hmem f0 (by rw [hops]; rfl)
+    simp only [hkinds, List.getD_cons_zero] at hsize
+    simp only [hma0, Bool.not_true, Bool.false_or, Bool.and_eq_true, Bool.or_eq_true, beq_iff_eq, bne_iff_ne, ne_eq, Bool.not_eq_true', decide_eq_true_eq] at hok
+    obtain ⟨-, hR, hA, hmask, ra, r3, hma, hb8, hsc⟩ := hok
+    obtain ⟨R, hmode⟩ := legRuleMDOk_spec _ _ _ _ hR
+    have A := (legAgreeOk_spec _ _ hA).1
+    have hal : alignOps e.rule.oszEff e.rule.ops [.mem mo, .imm v] = some [(f0, some (.mem mo)), (f3, some (.imm v))] := by
+      rw [hops]
+      exact alignOps2 _ _ _ _ _ (hasMemAlt_matches _ _ _ _ hma hsize AF.hvsib) m3
+    have hd : digitOf e < 8#32 := by simp only [digitOf]; bv_decide
+    exact legM_mi_formOk c ctx e.rule (finalOpRot e) (digitOf e) xb m mo pfx mb sib ds AF f0 f3 (digitOf e).toNat v (v &&& 0xFF#64) 1 hm64 hmode hmask
+      hd R (by intro _; rfl) A ra (by
+        intro p hp
+        refine immConds_ok ctx e.rule p f3 v r3 (by rw [hb8]; decide) R.hrev ?_
+        have hn : immBytesOf (immBitsOf f3) = 1 := by rw [hb8]; decide
+        rw [hn, hp, take_emitImmediate]
+        have hsc' : (immSignOf f3 == 1 && e.rule.oszEff != 0 && decide (8 * 1 < e.rule.oszEff)) = immSignCase e.rule f3 := by
+          simp [immSignCase, hn]
+        rw [hsc', hsc, emitImmediate_and8, emitImmediate_leBytes]
+        simp) hal
+  · simp at hok
+
+theorem dispatch_rot_mi (c : Model.X86.Ctx) (row : Row) (m : Mem) (v : BitVec 64) (henc : row.encoding = 0x37) (hsz : m.size ≠ 0)
+    (hne : v &&& 0xFF#64 ≠ 1#64) :
+    dispatch c row 0#32 (.mem m) (.imm v) .none .none =
+      emitX86M c (addArithBySize row.mainOp m.size - 0x10#32) 0#32 ((row.mainOp >>> 18) &&& 7#32) m (v &&& 0xFF#64) 1 := by
+  have h : (m.size == 0) = false := by simpa using hsz
+  have hne' : (v &&& 0xFF#64 == 1#64) = false := by simpa using hne
+  simp [dispatch, henc, sig3, Op.kind, Op.rmSize, Op.immVal, h, hne']
 
 end AsmjitVerif.Props.C01
